@@ -802,3 +802,97 @@ func TestVerifC12BlackBox(t *testing.T) {
 		},
 	})
 }
+
+// TestVerifC12Concurrent: deviating requests of different test cases are checked at the same time, the feedback goes
+// through the real stderr printer (internal.NewPrinter) into one stream, as in the reference server process. Every
+// line of that stream must be "<test name>: <message>" for the request that caused it, and every request gets exactly
+// the lines for its own deviating aspects.
+func TestVerifC12Concurrent(t *testing.T) {
+	setups := vfAllSetups()
+	type ccase struct {
+		Workers  int   `json:"workers"`
+		PerWork  int   `json:"requestsPerWorker"`
+		Expected []int `json:"expected"` // indexes into the setup table
+		Actual   []int `json:"actual"`
+	}
+	verifkit.Run(t, "C12Concurrent", verifkit.Spec[ccase]{
+		Gen: func(t *rapid.T) ccase {
+			c := ccase{Workers: rapid.IntRange(2, 8).Draw(t, "workers"), PerWork: rapid.IntRange(5, 40).Draw(t, "perWorker")}
+			for i := 0; i < 6; i++ {
+				c.Expected = append(c.Expected, rapid.IntRange(0, len(setups)-1).Draw(t, "expected"))
+				c.Actual = append(c.Actual, rapid.IntRange(0, len(setups)-1).Draw(t, "actual"))
+			}
+			return c
+		},
+		Check: func(c ccase) error {
+			var buf vfLockedBuffer
+			printer := internal.NewPrinter(&buf)
+			handler := referenceServerChecks(http.HandlerFunc(func(w http.ResponseWriter, r *http.Request) { w.WriteHeader(200) }), printer)
+			want := map[string]int{}
+			var wantMu sync.Mutex
+			var wg sync.WaitGroup
+			start := make(chan struct{})
+			for w := 0; w < c.Workers; w++ {
+				wg.Add(1)
+				go func(w int) {
+					defer wg.Done()
+					<-start
+					for k := 0; k < c.PerWork; k++ {
+						e, a := setups[c.Expected[(w+k)%len(c.Expected)]], setups[c.Actual[(w*3+k)%len(c.Actual)]]
+						name := fmt.Sprintf("verif/c12c/%d-%d", w, k)
+						n := len(vfMismatches(e, a))
+						wantMu.Lock()
+						want[name] = n
+						wantMu.Unlock()
+						handler.ServeHTTP(httptest.NewRecorder(), vfSynthRequest(e, a, name))
+					}
+				}(w)
+			}
+			close(start)
+			wg.Wait()
+			got := map[string]int{}
+			for _, line := range strings.Split(strings.TrimRight(buf.String(), "\n"), "\n") {
+				if line == "" {
+					continue
+				}
+				parts := strings.SplitN(line, ": ", 2)
+				if len(parts) != 2 {
+					return verifkit.Violf("concurrent-line-garbled", "stderr line does not have the form \"<test name>: <message>\": %q", line)
+				}
+				if _, ok := want[parts[0]]; !ok {
+					return verifkit.Violf("concurrent-line-garbled", "stderr line names no request that was sent: %q", line)
+				}
+				if strings.Contains(parts[1], "verif/c12c/") {
+					return verifkit.Violf("concurrent-line-garbled", "the message part of a stderr line contains another test's name: %q", line)
+				}
+				got[parts[0]]++
+			}
+			for name, n := range want {
+				if got[name] != n {
+					return verifkit.Violf("concurrent-feedback-count", "request %q deviates in %d aspects but %d feedback lines name it (%d workers)", name, n, got[name], c.Workers)
+				}
+			}
+			return nil
+		},
+		Classify: func(c ccase) ([]string, bool) {
+			return []string{fmt.Sprintf("workers:%d", c.Workers)}, c.Workers >= 2
+		},
+	})
+}
+
+type vfLockedBuffer struct {
+	mu  sync.Mutex
+	buf bytes.Buffer
+}
+
+func (b *vfLockedBuffer) Write(p []byte) (int, error) {
+	b.mu.Lock()
+	defer b.mu.Unlock()
+	return b.buf.Write(p)
+}
+
+func (b *vfLockedBuffer) String() string {
+	b.mu.Lock()
+	defer b.mu.Unlock()
+	return b.buf.String()
+}
